@@ -12,10 +12,12 @@ VERIF = os.path.dirname(os.path.dirname(os.path.abspath(__file__)))
 REPO = os.environ.get("VERIF_REPO", "/repo")
 CONTRACTS = os.path.join(VERIF, "contracts")
 EVIDENCE = os.path.join(VERIF, "evidence")
-REPLAY_DIR = os.path.join(EVIDENCE, "replay")
 # build caches always live in the real /verif (gitignored) so that background
 # snapshots (`vp run`) reuse them instead of rebuilding dependencies
 CACHE = os.environ.get("VERIF_CACHE", "/verif/.cache")
+# replay files of runs against /repo itself live with the evidence; runs against a patched copy (VERIF_REPO, used by
+# tools/run_seed.sh) keep theirs in the cache so that they never mix with /repo's evidence
+REPLAY_DIR = os.path.join(EVIDENCE, "replay") if REPO == "/repo" else os.path.join(CACHE, "replay-copy")
 KANI_TARGET = os.path.join(CACHE, "kani-target")
 KNOWN_FINDINGS = os.path.join(VERIF, "known_findings.json")
 
